@@ -396,8 +396,10 @@ struct Harness {
         size_t n = strlen(whole);
         const char* part = whole + (reporter.seen <= n ? reporter.seen : n);
         reporter.seen = n;
-        if (n + 1 >= (size_t) SimpleStringBuffer::SIMPLE_STRING_BUFFER_LEN) {
-            // the text buffer is full: this answer may be cut; the capacity of that buffer is not the subject here
+        if (n + 1 >= (size_t) 3500) {
+            // the text buffer is (nearly) full: this answer may be cut or dropped - past the lowered write limit of a report
+            // (buffer length minus the footer reserve, > 3500; a report without leaks leaves that limit lowered) nothing more is
+            // appended; the capacity of that buffer is not the subject here (it is C14's)
             reporter.dirty = true;
             vh::emit("report full");
             return;
